@@ -509,6 +509,9 @@ class OpSum(list):
         return self + (-other)
 
     def __mul__(self, other):
+        if isinstance(other, np.ndarray) and other.ndim == 0:
+            # 0-d array: a scalar, not a repetition count
+            other = other.item()
         if isinstance(other, list):
             res = []
             for op1 in self:
